@@ -177,6 +177,8 @@ let parse_op (toks : string list) : op =
   | ["savecap"; k] -> OpSave (Some (n k))
   | ["savepath"; "bad"] -> OpSavePath false
   | ["savepath"; "dir"] -> OpSavePath false
+  | ["savenoseek"] -> OpSavePath true      (* a sink that refuses the first seek: nothing is ever written, like a device without space *)
+  | ["saveeof"] -> OpSavePath true         (* a stream that is not good() on entry: the first write is refused *)
   | ["savepath"; "full"] -> OpSavePath true
   | ["validate"] -> OpValidate
   | ["obshdr"] -> OpObsHdr
